@@ -2,7 +2,7 @@
    ast_laue_sysabs: AST-translated from laue.py (equal to the tools version, C14); segm_laue / segm_tools: literals of genhkl_base;
    all_settings: the 237 tables; model/Traverse.v: hand model of the traversal, tied by in-Coq evaluation against the implementation. *)
 From Coq Require Import ZArith List Bool String.
-From XV Require Import SGroup HklModel Traverse Tab_segm Ast_laue Tab_sg_all P05.
+From XV Require Import SGroup HklModel Traverse Tab_segm Ast_laue Tab_sg_all P05 P05_complete P06_fd P05_cov_all P06_fd_main P05_all.
 Open Scope Z_scope.
 
 (* on the traversal's asymmetric unit (box [-7,7]^3, all 237 settings): sysabs = 0  <->  no operation (R,t) has hR = h with h.t non-integer *)
@@ -31,3 +31,54 @@ Theorem C05_expand_is_orbit : forall rots h, NoDup (expand rots h) /\
   forall x, In x (expand rots h) <-> exists R, In R rots /\ (x = vmZ h R \/ x = vmZ h (mnegZ R)).
 Proof. exact expand_is_orbit. Qed.
 Print Assumptions C05_expand_is_orbit.
+
+(* none missed (model): when sin(theta)/lambda does not decrease along the three loop directions inside every segment's cone
+   (gram_ok: the Gram products of the directions, and of the start with each direction, are non-negative), every allowed point of a
+   cone inside the shell is a row of the traversal.  Where gram_ok fails the implementation does miss reflections (known finding F6). *)
+Theorem C05_traversal_complete_if_monotone : forall G Tmin Tmax Tterm allowed, Tmax <= Tterm -> forall fuel segs l,
+  all_segments G Tmin Tmax Tterm allowed fuel segs = Some l -> (forall seg, In seg segs -> gram_ok G seg = true) ->
+  forall x seg, In seg segs -> in_cone seg x -> keep G Tmin Tmax allowed x = true -> In x l.
+Proof. exact all_segments_complete. Qed.
+Print Assumptions C05_traversal_complete_if_monotone.
+(* the condition holds for every conforming reciprocal metric of the orthorhombic, tetragonal, cubic and hexagonal-axes systems
+   (and for monoclinic / triclinic tables when the reciprocal metric happens to be orthogonal) *)
+Theorem C05_monotone_systems : forall laue choice G, (choice = "standard" \/ choice = "hexagonal")%string -> monotone_system laue choice G ->
+  forall seg, In seg (segs_of laue choice) -> gram_ok G seg = true.
+Proof. exact monotone_system_ok. Qed.
+Print Assumptions C05_monotone_systems.
+Theorem C05_traversal_complete_in_those_systems : forall laue choice G Tmin Tmax Tterm allowed fuel l,
+  (choice = "standard" \/ choice = "hexagonal")%string -> monotone_system laue choice G -> Tmax <= Tterm ->
+  all_segments G Tmin Tmax Tterm allowed fuel (segs_of laue choice) = Some l ->
+  forall x seg, In seg (segs_of laue choice) -> in_cone seg x -> allowed x = true -> Tmin < qform G x <= Tmax -> In x l.
+Proof. exact traversal_complete_systems. Qed.
+Print Assumptions C05_traversal_complete_in_those_systems.
+Theorem C05_monotone_fails_for_oblique_monoclinic : exists G seg, In seg (segs_of "2/m" "standard") /\ gram_ok G seg = false.
+Proof. exact mono_fails_oblique. Qed.
+Print Assumptions C05_monotone_fails_for_oblique_monoclinic.
+Theorem C05_boolean_cone_test_is_cone_membership : forall seg x, in_region seg x = true -> in_cone seg x.
+Proof. exact in_region_cone. Qed.
+Print Assumptions C05_boolean_cone_test_is_cone_membership.
+
+(* every non-zero hkl has a member of its Laue orbit in one of the cones (all of Z^3, every segment table; the group of a table entry is the
+   Laue group of every setting that selects it - checked by computation in fd_settings_ok) *)
+Theorem C05_cones_cover_every_family : forall e, In e fd_table -> forall x y z, (x <> 0 \/ y <> 0 \/ z <> 0) ->
+  exists R seg, In R (snd (fst e)) /\ In seg (snd e) /\ in_cone seg (vmZ (x, y, z) R).
+Proof. exact fd_table_cover. Qed.
+Print Assumptions C05_cones_cover_every_family.
+Theorem C05_settings_match_their_table_entry : forallb fd_setting_ok all_settings = true.
+Proof. exact fd_settings_ok. Qed.
+Print Assumptions C05_settings_match_their_table_entry.
+(* none missed, end to end, for the model of genhkl_all (representatives from the traversal, expanded by the point-group rotations and their
+   negatives): every allowed non-zero reflection inside the shell is listed, for every setting, whenever the metric passes gram_ok for the
+   setting's segments (C05_monotone_systems) and the metric and the reflection conditions are invariant under the Laue group. *)
+Theorem C05_none_missed_where_monotone : forall s, In s all_settings -> forall L segs rots,
+  all_mats (firstn (Z.to_nat (sg_nuniq s)) (sg_rot s)) = Some rots -> L = (rots ++ map mnegZ rots)%list ->
+  lookup_segm segm_laue (sg_laue s) (sg_choice s) = Some segs ->
+  forall G Tmin Tmax Tterm allowed, Tmax <= Tterm ->
+  (forall seg, In seg segs -> gram_ok G seg = true) ->
+  (forall R h, In R L -> qform G (vmZ h R) = qform G h) ->
+  (forall R h, In R L -> allowed (vmZ h R) = allowed h) ->
+  forall fuel reps, all_segments G Tmin Tmax Tterm allowed fuel segs = Some reps ->
+  forall h, h <> (0, 0, 0) -> allowed h = true -> Tmin < qform G h <= Tmax -> In h (flat_map (expand rots) reps).
+Proof. exact all_rows_complete. Qed.
+Print Assumptions C05_none_missed_where_monotone.
